@@ -19,7 +19,8 @@ class Check(RuntimeCheck):
     prop = 'C18'
     design_ref = 'DESIGN.md §4.2, §5 C18'
     theorems = ['C18_routing_irrelevant', 'C18_mocks_independent', 'C18_lifecycle_events_keep_shared',
-                'C18_methods_distinct', 'setShared_other', 'setInst_mocks']
+                'C18_methods_distinct', 'setShared_other', 'setInst_mocks', 'C18_assemble_layout_invariant',
+                'C18_eval_respects_equiv', 'C18_history_respects_equiv', 'setPat_equiv', 'assembleList_append']
 
     def rule(self):
         return ("relational families: each base scenario (random clause set over up to 6 methods, ordered and unordered, with a "
